@@ -476,7 +476,21 @@ EMOD = ['self.state', 'self.states[]', 'self.indents[]', 'self.indent', 'self.fl
         'self.analysis', 'self.style'] + OUT
 ERAISE = [EERR] + ENCERR
 
-for _w in ['write_single_quoted', 'write_double_quoted']:
+# ---- C02 / C15: what write_double_quoted copies verbatim.  Everything that is not `dqsafe` must leave the loop through the escape
+# branch: the quote and the backslash, NEL / LS / PS (a raw line break inside the quotes would be folded by the scanner), the BOM,
+# everything outside printable ASCII unless allow_unicode is on, and with allow_unicode everything outside the two BMP ranges.
+# Stated as lemmas at the two places where a slice of the text is written (cut points) plus the loop invariant that carries them.
+define('dqsafe', ['s', 'ch'], "(ch not in '\"\\\x85\u2028\u2029\ufeff') and ((' ' <= ch and ch <= '~') or "
+                             "(s.allow_unicode and (('\xa0' <= ch and ch <= '\ud7ff') or ('\ue000' <= ch and ch <= '\ufffd'))))")
+_DQ_INV = ["inv_pos(self)", "typeis(text, 'str') and 0 <= start and start <= end + 1 and end <= len(text) + 1",
+           "forall(j, start, end, j < len(text) ==> dqsafe(self, text[j]))"]
+contract(E + 'write_double_quoted', props=['C02', 'C15', 'C05'], params={'text': 'str', 'split': 'bool'},
+         requires=["inv_pos(self)"], ensures=["inv_pos(self)"], labels={0: 'inv_pos'},
+         invariants={0: _DQ_INV},
+         cuts=[("data = text[start:end]", ["forall(j, 0, end - start, j < len(data) ==> dqsafe(self, data[j]))"])],
+         modifies=['self.whitespace', 'self.indention', 'self.column', 'self.line', 'self.open_ended'] + OUT,
+         raises=ENCERR, raises_any=True)
+for _w in ['write_single_quoted']:
     contract(E + _w, trusted=True, why='scalar writer loop: only its frame and inv_pos are used by the state-machine contracts', params={'text': 'str'},
              requires=["inv_pos(self)"], ensures=["inv_pos(self)"], modifies=['self.whitespace', 'self.indention', 'self.column', 'self.line', 'self.open_ended'] + OUT,
              raises=ENCERR, raises_any=True)
